@@ -229,6 +229,33 @@ def replay_hist(job):
             except (POSKeyError, KeyError):
                 tm.abort()
             conn.close()
+        if not out['mismatch'] and db is not None and rng.random() < 0.5:
+            # ... also when a live connection of the same database takes part in the same transaction with a
+            # modification of its own: the commit must FAIL (not hang), nothing may be committed
+            tmx = transaction.TransactionManager()
+            last = rp.tids.real(sd.norm(beh[-1]['state']['hist'])[-1]['tid'])
+            live = db.open(tmx)
+            hist_c = db.open(tmx, before=last)
+            signal.setitimer(signal.ITIMER_REAL, 10)
+            try:
+                try:
+                    live.get(p64(0)).v = ['changed-live']
+                    hist_c.get(p64(0)).v = ['changed-hist']
+                    tmx.commit()
+                    out['mismatch'].append({'what': 'write-accepted', 'form': 'mixed-live-and-historical'})
+                except ReadOnlyHistoryError:
+                    out['refused_write'] += 1
+                    out['mixed'] = out.get('mixed', 0) + 1
+                    tmx.abort()
+                except (POSKeyError, KeyError):
+                    tmx.abort()
+            except TimeoutError:
+                out['mismatch'].append({'what': 'hang', 'form': 'mixed-live-and-historical'})
+            finally:
+                signal.setitimer(signal.ITIMER_REAL, 0)
+            if not out['mismatch']:
+                live.close()
+                hist_c.close()
         if kept and not out['mismatch']:
             # ... and leaves the commit lock free: the next transaction can begin
             import signal
@@ -311,6 +338,7 @@ def run(ctx):
         'future_points_refused': sum(r['refused_future'] for r in res),
         'writes_refused': sum(r['refused_write'] for r in res),
         'over_demo_storage': sum(1 for r in res if r.get('demo')),
+        'mixed_live_and_historical_commits_refused': sum(r.get('mixed', 0) for r in res),
         'secondary_connections_checked': sum(r.get('mirror', 0) for r in res),
         'rule': 'directed histories evaluated by TLC (ZScript over ZStorage: objects later changed, deleted, un-created by undo, '
                 'created later; stalled clock so that transactions share a second) are replayed on a FileStorage; after every '
